@@ -51,7 +51,7 @@ Reset(e) ==
   \* script table: bytes -> hash (re-checked with hashlib by the orchestrator); redeemer attachments per purpose
   \* the script table is keyed by <<language (0 = native), bytes>>: the same compiled code under two Plutus versions is two scripts with two hashes
   /\ scripts' = IF Has(e, "scripts") THEN [b \in {<<e.scripts[i].lang, e.scripts[i].bytes>> : i \in 1..Len(e.scripts)} |-> (CHOOSE x \in {e.scripts[i] : i \in 1..Len(e.scripts)} : x.lang = b[1] /\ x.bytes = b[2])] ELSE <<>>
-  /\ attach' = [p \in 0..4 |-> {}] /\ sdhFresh' = <<>> /\ rereg' = FALSE
+  /\ attach' = [p \in 0..5 |-> {}] /\ sdhFresh' = <<>> /\ rereg' = FALSE
 Balancing == {"AddChange", "AddInputsFromAndChange", "AddInputsFromAndChangeWithCollateralReturn"}
 ColHelpers == {"SetCollateralReturnAndTotal", "SetTotalCollateralAndReturn", "AddInputsFromAndChangeWithCollateralReturn"}
 Op(e) ==
@@ -78,6 +78,7 @@ Op(e) ==
                        [] e.op = "SetCerts" -> [attach EXCEPT ![2] = new]
                        [] e.op = "SetWithdrawals" -> [attach EXCEPT ![3] = new]
                        [] e.op = "SetVotes" -> [attach EXCEPT ![4] = new]
+                       [] e.op = "SetProposals" -> [attach EXCEPT ![5] = new]
                        [] OTHER -> attach)
   \* an outpoint that was registered as a Plutus input is registered again (as a regular or as another Plutus input)
   /\ rereg' = (rereg \/ (Has(e.r, "ok") /\ ((e.op = "AddInput" /\ Has(e, "item") /\ \E a \in attach[0] : a.item = e.item)
@@ -86,14 +87,14 @@ Op(e) ==
   /\ sdhFresh' = (IF ~Has(e.r, "ok") THEN sdhFresh
                   ELSE IF e.op = "CalcScriptDataHash" THEN <<e.langs>>
                   \* (an input added later - also a key-owned or selected one - moves the spending pointers, which are part of the hashed redeemer bytes)
-                  ELSE IF e.op \in {"AddPlutusInput", "AddNativeInput", "SetMint", "SetCerts", "SetWithdrawals", "SetVotes", "AddExtraDatum", "AddRefInput",
+                  ELSE IF e.op \in {"AddPlutusInput", "AddNativeInput", "SetMint", "SetCerts", "SetWithdrawals", "SetVotes", "SetProposals", "AddExtraDatum", "AddRefInput",
                                     "AddInput", "AddAny2Input", "AddInputsFrom", "AddInputsFromAndChange", "AddInputsFromAndChangeWithCollateralReturn"} THEN <<>>
                   ELSE sdhFresh)
   /\ colPct' = (IF e.op = "AddInputsFromAndChangeWithCollateralReturn" /\ Has(e.r, "ok") THEN <<FromBE(e.pct_n)>> ELSE IF e.op \in ColHelpers \cup {"SetCollateralReturn", "SetTotalCollateral"} THEN <<>> ELSE colPct)
 \* ---- Plutus / script obligations of a built transaction (C09 C10 C18 and the script parts of C06)
 \* fixed expansion rule shared with the harness: cost parameters of language v
 CostOf(v) == <<SPos(FromSmall(197209 + v)), SPos(Zero), SPos(One), SPos(FromSmall(23000)), SI(TRUE, FromSmall(5)), SPos(FromSmall(100))>>
-AllAttach == UNION {attach[p] : p \in 0..4}
+AllAttach == UNION {attach[p] : p \in 0..5}
 ScriptLockedAddr(a) == Len(a) >= 29 /\ (a[1] \div 16) \in {1, 3, 5, 7}
 WsScriptHashes(ws) == LET one(key, lang) == {IF <<lang, Elems(ws, key)[j].str>> \in DOMAIN scripts THEN scripts[<<lang, Elems(ws, key)[j].str>>].hash ELSE <<0>> : j \in 1..Len(Elems(ws, key))} IN
                       one(3, 1) \cup one(6, 2) \cup one(7, 3)
@@ -107,6 +108,8 @@ NeededScripts(body) ==
    \cup UNION {CertScripts(Elems(body,4)[j]) : j \in 1..Len(Elems(body,4))}
    \cup {SubSeq(r, 2, 29) : r \in {x \in RewardAccounts(body) : (x[1] \div 16) = 15}}
    \cup (IF HasK(body, 19) THEN LET v == GetK(body, 19) IN {v.kids[2*j-1].kids[2].str : j \in {i \in 1..(Len(v.kids) \div 2) : Small(v.kids[2*i-1].kids[1].arg) \in {1, 3}}} ELSE {})
+   \* the guardrail (proposal policy) script of parameter-change and treasury-withdrawal proposals
+   \cup UNION {PropPolicy(Elems(body,20)[j]) : j \in 1..Len(Elems(body,20))}
 RefInputKeys(body) == {InputKey(Elems(body,18)[j]) : j \in 1..Len(Elems(body,18))}
 VKeysNeeded(body, ws) ==
    SpentKeys(body, 0) \cup SpentKeys(body, 13)
@@ -123,17 +126,22 @@ VKeysNeeded(body, ws) ==
 ByronNeeded(body) == SpentByron(body, 0) \cup SpentByron(body, 13)
 ScriptChecks(e, tx, body, ws, sc, shape) ==
   LET reds == Redeemers(ws)
+      VoterOf(b) == LET v == Parse(b) IN <<Small(v.kids[1].arg), v.kids[2].str>>
       live == {a \in AllAttach :      \* attachments whose item is still part of the body
                  CASE a.purpose = 0 -> \E j \in 1..Len(Elems(body,0)) : Span(e.tx, Elems(body,0)[j]) = a.item
                    [] a.purpose = 1 -> a.item \in MintPolicies(body)
                    [] a.purpose = 2 -> CertIx(e.tx, body, a.item) >= 0
                    [] a.purpose = 3 -> a.item \in RewardAccounts(body)
+                   [] a.purpose = 4 -> VoterOf(a.item) \in Voters(body)
+                   [] a.purpose = 5 -> PropIx(e.tx, body, a.item) >= 0
                    [] OTHER -> TRUE}
       RedOf(rid) == {j \in 1..Len(reds) : reds[j].data.mt = 0 /\ Small(reds[j].data.arg) = rid}
       Expected(a) == CASE a.purpose = 0 -> SpendIx(body, InputKey(Parse(a.item)))
                        [] a.purpose = 1 -> MintIx(body, a.item)
                        [] a.purpose = 2 -> CertIx(e.tx, body, a.item)
                        [] a.purpose = 3 -> RewardIxLedger(body, a.item)
+                       [] a.purpose = 4 -> VoteIxLedger(body, VoterOf(a.item))
+                       [] a.purpose = 5 -> PropIx(e.tx, body, a.item)
                        [] OTHER -> -1 IN
   /\ (live # {} => Obl("C10", sc, <<shape, {<<a.purpose, Expected(a)>> : a \in live}>>))
   \* C10: every attached redeemer is present, with the purpose it was attached for, at the ledger's index of its item
@@ -142,6 +150,8 @@ ScriptChecks(e, tx, body, ws, sc, shape) ==
         ELSE LET j == CHOOSE x \in RedOf(a.rid) : TRUE IN
              /\ Chk(reds[j].tag = a.purpose, "C10", "Built/redeemer-purpose-wrong", sc, [rid |-> a.rid, want |-> a.purpose, got |-> reds[j].tag])
              /\ (a.purpose \in {0, 1, 2} => Chk(reds[j].ix = Expected(a), "C10", "Built/redeemer-index-wrong", sc, [rid |-> a.rid, purpose |-> a.purpose, want |-> Expected(a), got |-> reds[j].ix]))
+             /\ (a.purpose = 4 => Chk(reds[j].ix = Expected(a), "C10", "Built/vote-redeemer-index-wrong", sc, [rid |-> a.rid, want |-> Expected(a), got |-> reds[j].ix, voters |-> Voters(body)]))
+             /\ (a.purpose = 5 => Chk(reds[j].ix = Expected(a), "C10", "Built/proposal-redeemer-index-wrong", sc, [rid |-> a.rid, want |-> Expected(a), got |-> reds[j].ix]))
              /\ (a.purpose = 3 =>
                    IF reds[j].ix = RewardIxLedger(body, a.item) THEN TRUE
                    ELSE Fail("C10", "Built/reward-redeemer-index-wrong", sc, [rid |-> a.rid, want |-> RewardIxLedger(body, a.item), got |-> reds[j].ix]))
@@ -154,6 +164,8 @@ ScriptChecks(e, tx, body, ws, sc, shape) ==
                         [] r.tag = 1 -> r.ix < Cardinality(MintPolicies(body))
                         [] r.tag = 2 -> r.ix < Len(Elems(body,4)) /\ CertScripts(Elems(body,4)[r.ix + 1]) # {}
                         [] r.tag = 3 -> \E ra \in RewardAccounts(body) : RewardIxLedger(body, ra) = r.ix /\ (ra[1] \div 16) = 15
+                        [] r.tag = 4 -> \E v \in Voters(body) : VoteIxLedger(body, v) = r.ix /\ v[1] \in {1, 3}
+                        [] r.tag = 5 -> r.ix < Len(Elems(body,20)) /\ PropPolicy(Elems(body,20)[r.ix + 1]) # {}
                         [] OTHER -> TRUE IN
         Chk(locked, "C10", "Built/redeemer-points-at-an-item-that-is-not-script-locked", sc, [tag |-> r.tag, ix |-> r.ix])
   \* C18: each script in use is available exactly once: in the witness set, or at a declared reference input that is among body[18] (or spent)
@@ -299,7 +311,7 @@ MinAda(e) ==
           /\ Chk(Leq(c, Mul(cpb, FromSmall(160 + size8))), "C07", "MinAda/result-above-the-8-byte-bound", sc,
                  [c |-> e.r.v_n, bound |-> ToBE(Mul(cpb, FromSmall(160 + size8)), 0)])
 Other(e) == UNCHANGED <<env, pp, keys, byron, balanced, stale, feeReq, lastTx, colSt, colPct, scripts, attach, sdhFresh, rereg>>
-Init == l = 1 /\ env = <<>> /\ pp = <<>> /\ keys = <<>> /\ byron = <<>> /\ balanced = FALSE /\ stale = FALSE /\ feeReq = <<"none">> /\ lastTx = <<>> /\ colSt = "unset" /\ colPct = <<>> /\ scripts = <<>> /\ attach = [p \in 0..4 |-> {}] /\ sdhFresh = <<>> /\ rereg = FALSE
+Init == l = 1 /\ env = <<>> /\ pp = <<>> /\ keys = <<>> /\ byron = <<>> /\ balanced = FALSE /\ stale = FALSE /\ feeReq = <<"none">> /\ lastTx = <<>> /\ colSt = "unset" /\ colPct = <<>> /\ scripts = <<>> /\ attach = [p \in 0..5 |-> {}] /\ sdhFresh = <<>> /\ rereg = FALSE
 Next == /\ l <= Len(Rec)
         /\ LET e == Rec[l] IN
            CASE e.ev = "Reset" -> Reset(e)
